@@ -1100,6 +1100,8 @@ class Exec:
             return R(UNIT)
         if re.search(r'size_of::<T>', c):
             return R(s.S)
+        if re.search(r'size_of::<GenericArray<T, N>>', c) or re.search(r'size_of::<Self>', c):
+            return R(s.SZ)
         if re.search(r'needs_drop::<(\w+)>', c):
             ty = re.search(r'needs_drop::<(\w+)>', c).group(1)
             if ty not in s.needs_drop:
